@@ -70,6 +70,52 @@ theorem failure_belongs_to_open_test (vv : Bool) (flt : Option Filter) (tests : 
   have h := loop_failures_open flt tests true 0 {} { veryVerbose := vv } none
   simpa [messagesV, runAll, foldEvents, msgStep, msgsOf, step, msgsFrom] using h
 
+/-! ## repeated runs (`-r<n>`): one output object, its state carried from run to run -/
+
+/-- one repetition, from ANY state of the writer (whatever `currGroup_` / `currtest_` the previous
+    repetition left behind — they are never cleared), leaves nothing open -/
+theorem repetition_balanced (flt : Option Filter) (tests : List Script) (hne : ∀ t ∈ tests, t.info.group ≠ [])
+    (i n : Nat) (s : St) : runB .idle s (.testRun i n :: runAll flt tests) = some .idle := by
+  have h := loop_balanced flt tests true 0 {} s .idle hne (Or.inl ⟨rfl, rfl⟩)
+  simp only [runB] at h ⊢
+  by_cases hn : n > 1 <;>
+    simpa [runAll, msgsFrom_cons, msgsOf, step, hn, balRun, balStep] using h
+
+theorem repetitions_balanced (flt : Option Filter) (tests : List Script) (hne : ∀ t ∈ tests, t.info.group ≠ [])
+    (n : Nat) : ∀ (k : Nat) (s : St),
+      runB .idle s ((List.range k).flatMap fun i => Ev.testRun (i + 1) n :: runAll flt tests) = some .idle
+  | 0, s => rfl
+  | k + 1, s => by
+    rw [List.range_succ, List.flatMap_append, runB_append, repetitions_balanced flt tests hne n k s, Option.bind_some]
+    simpa using repetition_balanced flt tests hne (k + 1) n _
+
+/-- The messages of ANY number of consecutive runs on one output object pair up (`-r<n>`, default and
+    very verbose mode): every suite start has exactly one matching finish in every repetition, although the
+    writer's `currGroup_` still names the last suite of the previous repetition when the next one starts. -/
+theorem messages_balanced_repeated (vv : Bool) (n : Nat) (flt : Option Filter) (tests : List Script)
+    (hne : ∀ t ∈ tests, t.info.group ≠ []) : balanced (messagesV vv (runRepeated n flt tests)) = true := by
+  have h := repetitions_balanced flt tests hne n n { veryVerbose := vv }
+  simp only [runB] at h
+  simp only [balanced, messagesV, runRepeated]
+  rw [show (foldEvents msgStep { veryVerbose := vv } ((List.range n).flatMap fun i => Ev.testRun (i + 1) n :: runAll flt tests)).2 =
+    msgsFrom { veryVerbose := vv } ((List.range n).flatMap fun i => Ev.testRun (i + 1) n :: runAll flt tests) from rfl, h]
+  rfl
+
+theorem repetitions_failures_open (flt : Option Filter) (tests : List Script) (n : Nat) : ∀ (k : Nat) (s : St) (cur : Option Bytes),
+    failuresInOpenTest cur (msgsFrom s ((List.range k).flatMap fun i => Ev.testRun (i + 1) n :: runAll flt tests)) = true
+  | 0, s, cur => by simp [msgsFrom_nil, failuresInOpenTest]
+  | k + 1, s, cur => by
+    rw [List.range_succ, List.flatMap_append, msgsFrom_append, failuresInOpenTest_append, repetitions_failures_open flt tests n k]
+    have h := fun s' c => loop_failures_open flt tests true 0 {} s' c
+    simp only [List.flatMap_cons, List.flatMap_nil, List.append_nil, Bool.true_and]
+    by_cases hn : n > 1 <;>
+      simp [runAll, msgsFrom_cons, msgsOf, step, hn, failuresInOpenTest, h]
+
+/-- … and every failure message of every repetition belongs to the test that is open. -/
+theorem failure_belongs_to_open_test_repeated (vv : Bool) (n : Nat) (flt : Option Filter) (tests : List Script) :
+    failuresInOpenTest none (messagesV vv (runRepeated n flt tests)) = true :=
+  repetitions_failures_open flt tests n n { veryVerbose := vv } none
+
 /-- An ignored test is flagged: its messages are exactly started, ignored, finished. -/
 theorem ignored_flagged (t : Script) (r : R) (s : St) (h : t.info.willRun = false) :
     msgsFrom s (testEvs t r) =
@@ -89,6 +135,7 @@ theorem inner_not_flagged (t : TestInfo) : ∀ (l : List Ev) (s : St) (x : Bytes
     | print y => simp [msgsOf]
     | veryVerbose y => cases hv : s.veryVerbose <;> simp [msgsOf, hv]
     | failure f => simp [msgsOf]
+    | testRun _ _ => exact absurd he (by simp [okEv])
     | testsStarted => exact absurd he (by simp [okEv])
     | groupStarted _ => exact absurd he (by simp [okEv])
     | testStarted _ => exact absurd he (by simp [okEv])
